@@ -230,5 +230,21 @@ func cliRepeat(dir string, c *c19Case, want []byte) string {
 			return fmt.Sprintf("run %d of the command differs from the in-process output (%d vs %d bytes)", i+1, so.Len(), len(want))
 		}
 	}
+	// the same through -o, over a file that already exists and is longer than the output: the
+	// generated file is a function of grammar and flags, not of what the file held before
+	outFile := filepath.Join(dir, "out.go")
+	os.WriteFile(outFile, bytes.Repeat([]byte("// stale\n"), len(want)/8+1000), 0o644)
+	ctx, cancel := context.WithTimeout(context.Background(), 60*time.Second)
+	cmd := exec.CommandContext(ctx, bin, append(append(c.Flags.args(), "-o", outFile), in)...)
+	var se bytes.Buffer
+	cmd.Stderr = &se
+	err := cmd.Run()
+	cancel()
+	if err != nil {
+		return fmt.Sprintf("the command with -o failed (%v: %s) although the in-process build succeeded", err, truncT(se.String(), 200))
+	}
+	if got, _ := os.ReadFile(outFile); !bytes.Equal(got, want) {
+		return fmt.Sprintf("the file written with -o over an existing, longer file differs from the output (%d vs %d bytes)", len(got), len(want))
+	}
 	return ""
 }
